@@ -76,6 +76,13 @@ def check_one(f):
         return [("reparse-cpu-timeout", f"from_string(str(f)) did not return within 10 CPU-seconds for a {len(s)}-char text")]
     except Exception as e:
         return [(f"reparse-exc:{norm_msg(e, 40)}", f"from_string(str(f)) raised {type(e).__name__}: {e}; text {s[:120]!r}")]
+    try:
+        if str(obj) != s:
+            out.append(("str-not-repeatable", "str(filter) gives a different text the second time"))
+        if sl.LDAPFilter.from_string(s) != back:
+            out.append(("parse-not-repeatable", f"parsing {s[:80]!r} twice gives different filters"))
+    except Exception as e:
+        out.append((f"second-use-exc:{norm_msg(e, 30)}", f"second str()/from_string raised {type(e).__name__}: {e}"))
     if back != obj:
         got = av.a_filter(back)
         if got == collapse_dn(f) and got != f:
